@@ -21,6 +21,9 @@ if mode == "seeded":
 else:
     items = sorted(glob.glob("/verif/benign/" + (pat or "*.diff")))
     patches = [(os.path.basename(f)[:-5], f) for f in items]
+# analyse with a frozen copy of the checker so that rebuilding bin/lovcheck during a long run cannot mix versions
+if not os.environ.get("EVAL_KEEP_BINARY"):
+    shutil.copy("/verif/bin/lovcheck", "/verif/bin/lovcheck.eval")
 shutil.rmtree(BASE, ignore_errors=True); os.makedirs(BASE)
 sh("git -C /repo worktree prune")
 wq = queue.Queue()
@@ -39,7 +42,7 @@ def run(item):
             return sid, None
         det = {}
         for p in props:
-            o = sh("%s VERIF_DIR=%s timeout 900 /verif/bin/lovcheck -repo %s -property %s -nocontrols" % (ENV, ev, wt, p)).stdout
+            o = sh("%s VERIF_DIR=%s timeout 900 /verif/bin/lovcheck.eval -repo %s -property %s -nocontrols" % (ENV, ev, wt, p)).stdout
             if "VIOLATION" in o:
                 det[p] = sorted(set(re.findall(r"^\S+:\d+ (\S+) ", o, re.M)))
             elif "lovcheck property=" not in o:
